@@ -912,5 +912,32 @@ _C09 += [
          params={'src': 'List α', 'key': 'Fn α → κ'}, kinds={'src': 'list', 'key': 'callable'},
          locals={'bucketized': 'Dict κ | List α'}, helpers={'bucketize': 'bucketize_plain'},
          result='(List α) × (List α)', tie_theorem='C09.src_partition_eq_model'),
+    # the list-returning forms: `return list(<the generator form>(...))`
+    dict(_C09_COMMON, qualname='chunked', lean_name='chunked_nocount', kind='function',
+         tparams=['α'], classes=['PyRtC09.PyNone α'],
+         params={'src': 'List α', 'size': 'Int', 'count': 'Msg', 'kw': 'KwFill α'},
+         kinds={'src': 'list', 'count': 'none'}, locals={'chunk_iter': 'Gen List α'},
+         helpers={'chunked_iter': 'chunked_iter'}, result='List (List α)',
+         tie_theorem='C09.src_chunked_nocount_eq_model'),
+    dict(_C09_COMMON, qualname='unique', lean_name='unique_list', kind='function',
+         tparams=['α', 'κ'], classes=['DecidableEq κ'],
+         params={'src': 'List α', 'key': 'Fn α → κ'}, kinds={'src': 'list', 'key': 'callable'},
+         helpers={'unique_iter': 'unique_iter'}, result='List α', tie_theorem='C09.src_unique_list_eq_model'),
+    dict(_C09_COMMON, qualname='unique', lean_name='unique_list_nokey', kind='function',
+         tparams=['α'], classes=['DecidableEq α'],
+         params={'src': 'List α', 'key': 'Msg'}, kinds={'src': 'list', 'key': 'none'},
+         helpers={'unique_iter': 'unique_iter_nokey'}, result='List α', tie_theorem='C09.src_unique_list_nokey_eq_model'),
+    dict(_C09_COMMON, qualname='split', lean_name='split_func', kind='function', tparams=['α'],
+         params={'src': 'List α', 'sep': 'Fn α → Bool', 'maxsplit': 'Option Int'},
+         kinds={'src': 'list', 'sep': 'callable'}, helpers={'split_iter': 'split_iter_func'},
+         result='List (List α)', tie_theorem='C09.src_split_func_eq_model'),
+    dict(_C09_COMMON, qualname='split', lean_name='split_value', kind='function', tparams=['α'],
+         ops={'eqv': 'Fn α → α → Bool'}, params={'src': 'List α', 'sep': 'α', 'maxsplit': 'Option Int'},
+         kinds={'src': 'list', 'sep': 'value'}, helpers={'split_iter': 'split_iter_value'},
+         result='List (List α)', tie_theorem='C09.src_split_value_eq_model'),
+    dict(_C09_COMMON, qualname='split', lean_name='split_none', kind='function', tparams=['α'],
+         ops={'isNone': 'Fn α → Bool'}, params={'src': 'List α', 'sep': 'Msg', 'maxsplit': 'Option Int'},
+         kinds={'src': 'list', 'sep': 'none'}, helpers={'split_iter': 'split_iter_none'},
+         result='List (List α)', tie_theorem='C09.src_split_none_eq_model'),
 ]
 SPECS['C09'] = SPECS['C09'] + _C09
